@@ -140,7 +140,12 @@ def synthetic(rng, n):
                 s2 = sh if rng.random() < 0.5 else [rng.choice([2, 3])] + sh
                 t2 = np_.broadcast_to(t, tuple(s2))
                 desc.append(("broadcast_to", s2))
-            elif r < 0.85:
+            elif r < 0.8 and sh:
+                # indexing with stepped / reversed / partial slices: a node no rewrite rule matches, rebuilt by the optimiser's generic case
+                idx = tuple(rng.choice([slice(None), slice(None, None, -1), slice(None, None, -1)]) for _ in sh)   # what the signature supports (flip)
+                t2 = tracer.signature.classical.getitem()(t, idx)
+                desc.append(("getitem", [[i.start, i.stop, i.step] for i in idx]))
+            elif r < 0.88:
                 k = rng.choice([1, 1, 2])
                 ax = rng.randrange(len(sh)) if sh else 0
                 if not sh:
